@@ -32,5 +32,117 @@ def main():
     if len(dig) == 2 and dig[0] != dig[1]:
         print("Rat override disagrees with the TLA+ definitions")
         bad += 1
+    bad += demos()
     print("selftest:", "ok" if not bad else "%d failures" % bad)
     return 0 if not bad else 2
+
+
+# ---------------------------------------------------------------------------------------------------------------------
+# binding and detection demonstrations (DESIGN 8): corrupted records must be rejected with the right clause, mutated models
+# must violate their invariants.  Everything here is independent of strawberryfields.
+import json
+import shutil
+import tempfile
+
+
+def _verdicts(module, cases):
+    tmp = tempfile.mkdtemp(prefix="verif-self-")
+    try:
+        path = os.path.join(tmp, "cases.json")
+        json.dump(cases, open(path, "w"))
+        r = common.run_tlc(module, invariants=["Report"], workers=2, env={"CASES_FILE": path}, tmp=tmp)
+        if not r.ok():
+            return ["TLC-ERROR: %s" % r.errors[:2]]
+        out = {j["tid"]: j["verdict"] for j in r.json}
+        return [out.get(i + 1) for i in range(len(cases))]
+    finally:
+        shutil.rmtree(tmp, ignore_errors=True)
+
+
+def _mutant(module, files, edits, **kw):
+    """copy the spec directory, apply textual edits, run TLC; returns the TLCResult"""
+    tmp = tempfile.mkdtemp(prefix="verif-mut-")
+    try:
+        dst = os.path.join(tmp, "spec")
+        shutil.copytree(common.SPEC, dst)
+        for f, (old, new) in zip(files, edits):
+            p = os.path.join(dst, f)
+            s = open(p).read()
+            assert s.count(old) >= 1, (f, old)
+            open(p, "w").write(s.replace(old, new))
+        old_spec, old_ovr = common.SPEC, common.OVR
+        common.SPEC, common.OVR = dst, os.path.join(dst, "overrides")
+        try:
+            return common.run_tlc(module, tmp=tmp, **kw)
+        finally:
+            common.SPEC, common.OVR = old_spec, old_ovr
+    finally:
+        shutil.rmtree(tmp, ignore_errors=True)
+
+
+def demos():
+    bad = 0
+    A345, A0 = [[3, 5], [4, 5]], [[1, 1], [0, 1]]
+
+    def expect(name, got, want):
+        nonlocal bad
+        ok = got == want
+        print("binding %-58s %s" % (name, "ok" if ok else "FAILED: got %s, want %s" % (got, want)))
+        bad += 0 if ok else 1
+    # C04: scheduler consumes recorded outputs
+    circ = [{"id": 1, "wires": [0], "marked": False}, {"id": 2, "wires": [0, 1], "marked": True}, {"id": 3, "wires": [2], "marked": False}]
+    base = {"circ": circ, "kind": "topo", "a": 0, "b": 0, "merged": []}
+    expect("TraceOrder: legal / swapped dependent / dropped / marked in A",
+           _verdicts("TraceOrder", [dict(base, out=[3, 1, 2]), dict(base, out=[2, 1, 3]), dict(base, out=[1, 2]),
+                                    dict(base, kind="group", out=[2, 1, 3], a=1, b=1)]),
+           ["accepted", "DependencyOrder", "NotSameCommands", "DependencyOrder"])
+    expect("TraceOrder: marked command in the leading part", _verdicts("TraceOrder", [dict(base, kind="group", out=[3, 1, 2], a=3, b=0)]), ["MarkedOutsideB"])
+    # C03/C11: denotation of rewrites
+    r1 = {"name": "Rgate", "p": [A345], "modes": [0], "dag": False}
+    k1 = {"name": "Kgate", "p": [[1, 1]], "modes": [0], "dag": False}
+    expect("TraceOpt: identical / dagger flipped (Gaussian) / dagger flipped (Kerr) / gate moved across Kerr gate",
+           _verdicts("TraceOpt", [{"n": 1, "orig": [r1, k1], "opt": [r1, k1]}, {"n": 1, "orig": [r1], "opt": [dict(r1, dag=True)]},
+                                  {"n": 1, "orig": [k1], "opt": [dict(k1, dag=True)]},
+                                  {"n": 1, "orig": [{"name": "Xgate", "p": [[1, 2]], "modes": [0], "dag": False}, k1],
+                                   "opt": [k1, {"name": "Xgate", "p": [[1, 2]], "modes": [0], "dag": False}]}]),
+           ["accepted", "FiniteMapChanged", "FiniteMapChanged", "FiniteMapChanged"])
+    # C18
+    pair = {"kind": "pair", "n": 1, "p": [r1], "q": [dict(r1, dag=True)], "eqpq": True, "eqqp": True, "evpq": False, "evqp": False, "same": False,
+            "perm": [], "e1": False, "e2": False}
+    expect("TraceEq: equal-but-inverse / asymmetric answer / honest answer",
+           _verdicts("TraceEq", [pair, dict(pair, eqqp=False), dict(pair, eqpq=False, eqqp=False)]), ["EqualButDifferent", "EqualityNotSymmetric", "accepted"])
+    # C19
+    step = {"kind": "step", "fn": "grow", "n": 3, "edges": [[0, 1], [1, 2], [0, 2]], "w": [1, 1, 1], "mode": "uniform", "state": [0], "succs": [[0, 1], [0, 2]],
+            "ncand": 2, "stopped": False, "limit": False}
+    card = {"kind": "card", "fn": "orbit_cardinality", "orbit": [1, 1], "modes": 25, "out": [300, 1], "photons": 0, "maxc": 0}
+    expect("TraceApps: full candidate set / one candidate missing / exact cardinality / off by one",
+           _verdicts("TraceApps", [step, dict(step, succs=[[0, 1]], ncand=1), card, dict(card, out=[299, 1])]),
+           ["accepted", "CandidateSetDiffers", "accepted", "CardinalityWrong"])
+    # C14
+    c = {"name": "Rgate", "p": ["0.3"], "modes": [0], "dag": True, "sel": "None", "dark": "None", "deps": []}
+    io = {"orig": [c], "loaded": [dict(c, dag=False)], "perm": [1], "meta_orig": "{}", "meta_loaded": "{}"}
+    expect("TraceIO: dagger lost / parameter changed / faithful", _verdicts("TraceIO", [io, dict(io, loaded=[dict(c, p=["0.31"])]), dict(io, loaded=[c])]),
+           ["InverseFlagLost", "ParametersDiffer", "accepted"])
+    # C12
+    t = [{"name": "S2gate", "modes": [0, 1]}]
+    d = {"template": t, "perm": [1], "compiled": [{"name": "S2gate", "modes": [0, 1], "p": [500000, 0], "lo": [0, 0], "hi": [1000000, 0], "dag": False}]}
+    d2 = json.loads(json.dumps(d))
+    d2["compiled"][0]["p"][0] = 1400000
+    d3 = json.loads(json.dumps(d))
+    d3["compiled"][0]["modes"] = [1, 0]
+    expect("TraceDevice: in range / out of range / swapped modes", _verdicts("TraceDevice", [d, d2, d3]), ["accepted", "ParameterOutOfRange", "ModesDifferFromLayout"])
+    # model-level mutants: the invariants are not vacuous
+    r = _mutant("MC_Opt", ["Optimizer.tla"], [("AddFirst(k, a.p[1], b.p[1], a.dag # b.dag)", "AddFirst(k, a.p[1], b.p[1], FALSE)")],
+                constants={"NMod": 1, "Len0": 0, "AlphaId": "h", "EMIT": False}, invariants=["MergeAlgebraSound"])
+    expect("mutant: merge ignores inverse flags -> MergeAlgebraSound violated", not r.ok(), True)
+    r = _mutant("MC_TDM", ["MC_TDM.tla"], [("Off(b) + ((pos - Off(b) + g) % Bands[b])", "Off(b) + ((pos - Off(b) + 2 * g) % Bands[b])")],
+                constants={"TemplateId": "n3", "T": 3, "MaxShots": 1, "HistDepth": 0, "EMIT": False}, invariants=["MeansLoop"])
+    expect("mutant: register shifts by two per bin -> UnrollMeansLoop violated", not r.ok(), True)
+    r = _mutant("MC_Gauss", ["PhaseSpace.tla"], [("RAdd(RMul(RMul(f(a), f(b)), @[a][b]),\n                                IF a = b /\\ (a = i \\/ a = i + k) THEN nz ELSE Zero)",
+                                                   "RAdd(RMul(RMul(f(a), f(b)), @[a][b]), nz)")],
+                constants={"N": 2, "Depth": 1, "AlphaId": "d", "PrefixId": "e2", "KNum": 1, "KDen": 1, "EMIT": False}, invariants=["Physical"], properties=["TargetsOnly"])
+    expect("mutant: loss noise added to the whole matrix -> TargetsOnly violated", not r.ok(), True)
+    r = _mutant("MC_Reg", ["MC_Reg.tla"], [("/\\ sim' = ApplySeq(sim, [j \\in 1 .. Len(ms) |-> Op(\"Del\", <<>>, <<ms[j]>>)], K)", "/\\ sim' = sim")],
+                constants={"N0": 2, "MaxIdx": 3, "Depth": 2, "EMIT": False}, invariants=["RegisterAgreement"])
+    expect("mutant: deletion not forwarded to the simulator -> RegisterAgreement violated", not r.ok(), True)
+    return bad
